@@ -696,6 +696,7 @@ def check_csv(ctx, produced):
            'blob_to_df does not iterate results_blob in order')
     check_column_names(ctx, fi, bd)
     check_every_cell_has_row(ctx, bd)
+    check_csv_tree_version(ctx)
     # confidence key choice in _run_mapping
     rm = db.fn('cli.from_specified_markers:_run_mapping')
     cfgm = cfg_of(rm)
@@ -922,3 +923,31 @@ def check_every_cell_has_row(ctx, df_fn):
     CV.check_cover(ctx, df_fn, rule, 'blob_to_df:rows', loop, act,
                    what='cell', consequence='that cell has a JSON record '
                    'but no CSV row')
+
+
+def check_csv_tree_version(ctx):
+    """the records handed to the CSV writer carry every level of the stored
+    taxonomy (levels dropped for the run are back-filled), so the writer
+    must be given the stored tree -- the same one that is embedded in the
+    JSON / HDF5 output -- not the tree as reduced by drop_level / flatten:
+    with the reduced tree the header and the per-level columns of the
+    back-filled levels are missing from the CSV only."""
+    from .C01 import tree_version_facts, reduced
+    fi, cfg, rd, ex, facts = tree_version_facts(ctx)
+    rule = 'R-PROV/csv-tree-version'
+    got = facts.get(('arg', 'utils.output_utils:blob_to_csv'), [])
+    if not got:
+        ctx.fail(rule, '_run_mapping:blob_to_csv', fi.loc(),
+                 'blob_to_csv is not given a taxonomy_tree in _run_mapping')
+        return
+    for k, (c, t) in enumerate(got):
+        stored = (T.has_call(t, 'from_str')
+                  or T.has_call(t, 'from_precomputed_stats'))
+        ok = stored and not reduced(t)
+        ctx.ob(rule, f'_run_mapping:blob_to_csv#{k}', fi.loc(c), ok,
+               'the CSV is written with the stored taxonomy' if ok else
+               'the CSV is written with a tree that '
+               + ('was reduced by drop_level / flatten' if reduced(t)
+                  else 'is not the stored taxonomy')
+               + f' ({fmt_term(t)[:100]}): levels that were back-filled '
+               'into the records do not appear in the CSV')
